@@ -53,6 +53,9 @@ def shapes(ctx):
         out.append((f"mixed:{op}:if", f"result(\"r\", x {op} f)"))
         out.append((f"mixed:{op}:fi", f"result(\"r\", f {op} x)"))
         out.append((f"mixed:{op}:cf", f"result(\"r\", 2 {op} f)"))
+        out.append((f"mixed:{op}:fc_i", f"result(\"r\", 2.5 {op} x)"))      # float constant, traced int
+        out.append((f"mixed:{op}:i_fc", f"result(\"r\", x {op} 2.5)"))
+        out.append((f"mixed:{op}:fc_w", f"result(\"r\", 0.5 {op} w)"))
     out += [
         ("unary:-", "result(\"r\", -x)"), ("unary:+", "result(\"r\", +x)"), ("unary:~", "result(\"r\", ~x)"),
         ("unary:-f", "result(\"r\", -f)"), ("unary:not", "result(\"r\", not b)"),
@@ -62,6 +65,10 @@ def shapes(ctx):
         ("builtin:divmod", "q, r = divmod(x + 7, 3)\n    result(\"q\", q)\n    result(\"r\", r)"),
         ("builtin:pow", "result(\"r\", pow(w, 2))"),
         ("truediv:tt", "result(\"r\", (x * 4) / 2)"), ("truediv:ct", "result(\"r\", 8 / w)"),
+        ("truediv:fc_i", "result(\"r\", 7.5 / w)"), ("truediv:i_fc", "result(\"r\", x / 0.5)"),
+        ("truediv:f_i", "result(\"r\", f / w)"), ("truediv:i_f", "result(\"r\", y / (f + 1.5))"),
+        ("floordiv:ct", "result(\"r\", 17 // w)"), ("mod:ct", "result(\"r\", 17 % w)"), ("pow:ct", "result(\"r\", 2 ** w)"),
+        ("sub:ct_y", "result(\"r\", 10 - y)"), ("cmp:fc_i", "result(\"r\", 2.5 < x)"), ("cmp:i_fc", "result(\"r\", x < 2.5)"),
         ("tuple:pack_unpack", "t = (x, y + 1)\n    a1, b1 = t\n    result(\"a\", a1)\n    result(\"b\", b1)"),
         ("tuple:swap", "a1, b1 = y, x\n    result(\"a\", a1 - b1)"),
         ("tuple:nested", "(a1, b1), c1 = (x, 2), y\n    result(\"r\", a1 * b1 + c1)"),
